@@ -68,8 +68,10 @@ def generate(rng, tier, idx):
         t2 = rng.choice(TAU_GRID)
         if fam == 'Frank' and rng.random() < 0.5:
             t2 = -t2
+        if fam == 'Frank' and rng.random() < 0.4:
+            t2 = -tau                     # exactly the mirrored dependence
         ops.append({'op': 'reparam', 'tau': t2, 'how': rng.choice(['assign', 'compute'])})
-        ops.append({'op': 'sample', 'n': rng.choice([10, 500, 2000])})
+        ops.append({'op': 'sample', 'n': rng.choice([10, 2000, 2000])})
     if fam != 'Frank' and rng.random() < 0.15:
         # history: a refit on data the family refuses (negative dependence); the caller keeps
         # the object.  Whatever the object does afterwards, a sample it returns must obey the
